@@ -24,7 +24,7 @@ use serde::{Deserialize, Serialize};
 use simcore::Rng;
 use tokio::time::Duration;
 
-use crate::{Answer, Base, Expect, Forged, ProbeResult, meter, wire};
+use crate::{Answer, Base, Expect, Field, Forged, ProbeResult, meter, wire};
 
 #[derive(Clone, Debug, Serialize, Deserialize, PartialEq)]
 pub enum JOp {
@@ -261,11 +261,12 @@ impl Fx {
     }
 }
 
-pub async fn probe(h: &JournalHist, forged: &Forged) -> ProbeResult {
+pub async fn probe(h: &JournalHist, forged: &Forged, field: Field) -> ProbeResult {
     let mut fx = Fx::new(h);
     if let Err(e) = fx.run(&h.ops).await {
         return ProbeResult::harness(e);
     }
+    meter::arm(true);
     let mut res = ProbeResult::new();
     res.units = fx.units;
     match forged {
@@ -276,36 +277,65 @@ pub async fn probe(h: &JournalHist, forged: &Forged) -> ProbeResult {
                 Base::NextPn => next_pn,
                 _ => 0,
             });
-            let fr = first_range.resolve(&|b| match b {
+            // only the field under test may make the frame illegal: the other fields are clamped to legal values
+            // (Largest Acknowledged is left as drawn: an acknowledgement of a packet never sent is a case of its own)
+            let mut fr = first_range.resolve(&|b| match b {
                 Base::Largest | Base::Floor => lg,
                 Base::NextPn => next_pn,
                 _ => 0,
             });
+            if field != Field::FirstRange {
+                fr = fr.min(lg);
+                if fr > 4096 {
+                    // a side field never carries a second large value (the ladder varies one field only)
+                    fr %= 3;
+                }
+            }
             let mut below_zero: Option<&'static str> = if fr > lg { Some("first_range") } else { None };
             let mut smallest = lg.saturating_sub(fr);
             let mut rs = Vec::with_capacity(ranges.len());
-            for (g, l) in ranges {
-                let gv = g.resolve(&|b| match b {
+            for (i, (g, l)) in ranges.iter().enumerate() {
+                let mut gv = g.resolve(&|b| match b {
                     Base::Floor => smallest.saturating_sub(2),
                     Base::Largest => lg,
                     Base::NextPn => next_pn,
                     _ => 0,
                 });
+                if field != Field::Gap(i as u8) && below_zero.is_none() {
+                    if smallest < 2 {
+                        // the packet number space is used up: a legal frame ends here
+                        res.notes.push("probe.ack_side_ranges_truncated");
+                        break;
+                    }
+                    gv = gv.min(smallest - 2);
+                    if gv > 4096 {
+                        gv %= 3;
+                    }
+                }
                 if below_zero.is_none() && gv + 2 > smallest {
                     below_zero = Some("gap");
                 }
                 let cur_largest = smallest.saturating_sub(gv + 2);
-                let lv = l.resolve(&|b| match b {
+                let mut lv = l.resolve(&|b| match b {
                     Base::Floor => cur_largest,
                     Base::Largest => lg,
                     Base::NextPn => next_pn,
                     _ => 0,
                 });
+                if field != Field::Range(i as u8) && below_zero.is_none() {
+                    lv = lv.min(cur_largest);
+                    if lv > 4096 {
+                        lv %= 3;
+                    }
+                }
                 if below_zero.is_none() && lv > cur_largest {
                     below_zero = Some("range");
                 }
                 smallest = cur_largest.saturating_sub(lv);
                 rs.push((gv, lv));
+            }
+            if let Some(w) = below_zero {
+                res.culprit = Some(format!("ack.{w}"));
             }
             let none = |_b: Base| 0u64;
             let ecn_v = ecn.map(|e| (e[0].resolve(&none), e[1].resolve(&none), e[2].resolve(&none)));
@@ -426,6 +456,6 @@ pub async fn probe(h: &JournalHist, forged: &Forged) -> ProbeResult {
 
 fn finish(fx: Fx, res: ProbeResult) -> ProbeResult {
     // a handler that panicked may have poisoned a lock that the teardown takes
-    let _ = simcore::panics::guarded(move || drop(fx));
+    let _ = meter::guarded(move || drop(fx));
     res
 }
